@@ -1,3 +1,5 @@
+import SlipVerif.Model.Dispatch
 import SlipVerif.Model.Num
+import SlipVerif.Driver.Dispatch
 import SlipVerif.Driver.Num
 import SlipVerif.Driver.Util
